@@ -54,7 +54,7 @@ def run(r):
         files = [f for f in IG.corpus_files() if os.path.getsize(f) < 6000]
         mbytes = [list(b) for b in (b"i\x05\x00\x00\x00", b"(\x02\x00\x00\x00i\x01\x00\x00\x00N", b"s\x03\x00\x00\x00abc", b"[\x01\x00\x00\x00T", b"{i\x01\x00\x00\x00N0", b"g\x00\x00\x00\x00\x00\x00\xf8?")]
         seqs = []
-        for i in range(40 if quick else 400):
+        for i in range(160 if quick else 1600):
             n = rnd.choice([1, 2, 3, 5, 8, 13, 25, 40] if not quick else [1, 3, 5, 8, 15, 25])
             ops = [rand_op(rnd, files, mbytes) for _ in range(n)]
             probe = rand_op(rnd, files, mbytes)
